@@ -145,10 +145,14 @@ def fault_case(case, env):
                 # -L, the /proc/self/mem link) is just another listed file
                 active = [f for f in active if f["kind"] not in ("file000", "procmem")]
             explicit = [f["path"] for f in faults if f["explicit"]]
-            argv = ["--no-config", "--color", "never", threads] + (["-L"] if follow else []) + margs
+            # (one file system only: the option changes nothing here, but the
+            # roots are then examined one by one before the walk starts)
+            osf = ["--one-file-system"] if (not follow and rng.chance(1, 3)) else []
+            argv = ["--no-config", "--color", "never", threads] + (["-L"] if follow else []) + osf + margs
             if mname != "files":
                 argv += ["-e", WORD]
-            argv += ["."] + explicit
+            # the faulty explicit paths before or after the healthy root
+            argv += (explicit + ["."]) if rng.chance(1, 2) else (["."] + explicit)
             rep["evaluations"] += 1
             r = common.run_rg(argv, root, env.home, uid=UID, timeout=120)
             if r is None:
